@@ -11,6 +11,9 @@ Decided (structural, necessary conditions):
   C21.wait-loop     in CompletionEventImpl::wait the function can only be left on the edge where an
                     acquire load of the status equals completedStatus, and the value given to the
                     kernel to compare is the value loaded in that same loop test.
+  C21.latch-wait    Latch::wait / arrive_and_wait return only through CompletionEventImpl::wait(0) or
+                    after observing zero / the final arrival; if they park with waitUntilChanged(v),
+                    v is the very value whose test sent them there (one load, not two).
 """
 from lib.rules import (atomic_ops, comparison_of, guard_comparisons, is_atomic_node, lvalue_path,
                        field_name, same_value, unwrap_assign)
@@ -121,3 +124,58 @@ def run(R):
                  why="FUTEX_WAIT must compare against the value the loop just observed, else a notify between "
                  "the load and the wait is missed")
     R.need("C21.wait-loop", n, 2, "exit guard and FUTEX_WAIT site in CompletionEventImpl::wait")
+
+    # ---- Latch::wait / arrive_and_wait block correctly --------------------------------------------------
+    # A latch waiter may return only after observing zero, and when it parks on the futex it must hand
+    # the kernel the very value it tested: testing one load and parking on a second one loses the
+    # wakeup of an arrival that lands between the two.
+    n = 0
+    LWAIT = "dispenso::detail::CompletionEventImpl::wait"
+    WUC = "dispenso::detail::CompletionEventImpl::waitUntilChanged"
+    for q in ("dispenso::Latch::wait", "dispenso::Latch::arrive_and_wait"):
+        for fn in F.functions(qname=q):
+            n += 1
+            def blocking(p, e):
+                return (is_call(e, LWAIT) and e.get("args") and const_val(e["args"][0]) == 0) or (q.endswith("arrive_and_wait") and is_call(e, "dispenso::Latch::wait"))
+            def zero_seen(a):
+                a = strip_casts(a)
+                if isinstance(a, dict) and a.get("k") == "call" and a.get("name") == "try_wait":
+                    return True
+                return False
+            removed = fn.edges_where(zero_seen, True)
+            # the count was read as zero / this arrival was the last one
+            for b, t in fn.branch_blocks():
+                for i in (0, 1):
+                    for a, pol, _ in fn.cond_atoms(t["cond"], i == 0, b):
+                        c = comparison_of(a, pol, lambda x: is_atomic_node(F, fn, x, STATUS, ("load", "fetch_sub")))
+                        if c and ((c[0] == "==" and const_val(c[1]) in (0, 1)) or (c[0] == "<=" and const_val(c[1]) in (0, 1)) or (c[0] == "<" and const_val(c[1]) in (1, 2))):
+                            removed.add((b, i))
+            path = fn.path_to_exit_avoiding(Pos(fn.entry, -1), blocking, removed_edges=removed)
+            wucs = [(p, e) for p, e in fn.events() if is_call(e, WUC)]
+            ok, det = path is None, "returns only through CompletionEventImpl::wait(0) or after observing the final arrival"
+            if wucs:
+                # parking on 'changed from v': v must be the value whose test sent us here
+                for p, e in wucs:
+                    v = strip_casts(fn.expand_expr(e["args"][0])) if e.get("args") else None
+                    same = False
+                    def is_v(x):
+                        val, tgt = unwrap_assign(x)       # `(v = word.load()) != 0`
+                        for y in (strip_casts(x), val, strip_casts(tgt) if tgt is not None else None):
+                            if isinstance(y, dict) and isinstance(v, dict) and (y.get("sid") == v.get("sid") or (y.get("k") == "var" and v.get("k") == "var" and y.get("vid") == v.get("vid"))):
+                                return True
+                        return False
+                    for a, pol, _ in fn.guard_atoms(p):
+                        aa = strip_casts(a)
+                        if isinstance(aa, dict) and aa.get("k") == "bin" and aa.get("op") in ("!=", "==", ">", ">=", "<", "<=") and (is_v(aa.get("l")) or is_v(aa.get("r"))):
+                            same = True
+                        elif is_v(aa):
+                            same = True
+                    if not same:
+                        ok, det = False, "parks with waitUntilChanged(%s), a value loaded separately from the one that was tested: an arrival between the two loads is missed and the waiter sleeps forever" % expr_str(e["args"][0])
+                    elif path is not None:
+                        ok = True   # a test-and-park loop on one loaded value is a complete wait
+            elif path is not None:
+                det = "can return without blocking on the count and without having observed zero"
+            R.ob("C21.latch-wait", fn, fn.loc, ok, det, sitekey=q.split("::")[-1], why="waits never return before the count reaches zero, and never miss the wakeup of the arrival that takes it there",
+                 path=fn.describe_path(path) if (path and not ok) else None)
+    R.need("C21.latch-wait", n, 2, "Latch::wait and Latch::arrive_and_wait")
